@@ -70,7 +70,7 @@ example : Aligned ({} : CState) := rfl
     attribution when `then` (token 3) backpatches it -/
 example : (immediate { lastTok := 1, code := [.loadI64 1], dmap := [0] } "if").casesOn
     (fun s => (immediate { s with lastTok := 3 } "then").casesOn (fun s' => s'.dmap = [0, 1] ∧ s'.code = [.loadI64 1, .jumpIfNot 1])
-      (fun _ => False) (fun _ => False)) (fun _ => False) (fun _ => False) := by
+      (fun _ _ => False) (fun _ => False)) (fun _ _ => False) (fun _ => False) := by
   simp [immediate, CState.pushFlow, CState.emit, CState.origin, CState.takeFirstCond, CState.backpatchJump, fromTo]
 
 end Xeh.C17
